@@ -293,6 +293,7 @@ fn run_resource(dep0: u32, fb: Option<u32>, events: &[String]) -> (String, Optio
             }));
         });
         let (dep, res, scope) = (dep.unwrap(), res.unwrap(), scope.unwrap());
+        let readers: Rc<RefCell<Vec<NodeHandle>>> = Default::default();
         let mut alive = true;
         // harness bookkeeping for the oracle
         let (mut started, mut latest_dep, mut completed, mut value): (u32, u32, bool, Option<(u32, u32)>) = (1, dep0, false, None);
@@ -312,7 +313,11 @@ fn run_resource(dep0: u32, fb: Option<u32>, events: &[String]) -> (String, Optio
             for e in g.split('+') {
             let e = &e.to_string();
             r = catch(|| root.run_in(|| {
-                if e == "x" { scope.dispose(); }
+                // `u`: the resource is read under a new suspense boundary that lives in a new child scope;
+                // `y`: the oldest such scope is disposed (the boundary the resource remembers is gone)
+                if e == "u" { if alive { readers.borrow_mut().push(create_child_scope(|| { let _ = create_suspense_scope(|| { let _ = res.get_clone(); }); })); } }
+                else if e == "y" { if !readers.borrow().is_empty() { let h = readers.borrow_mut().remove(0); h.dispose(); } }
+                else if e == "x" { scope.dispose(); }
                 else if let Some(v) = e.strip_prefix('w') { if alive { dep.set(v.parse().unwrap()); } }
                 else if let Some(k) = e.strip_prefix('f') { let k: usize = k.parse().unwrap(); if k >= 1 { if let Some(tx) = txs.borrow_mut().get_mut(k - 1).and_then(|t| t.take()) { let _ = tx.send(()); } } }
             }));
@@ -604,6 +609,26 @@ pub fn generate(args: &Args) -> Vec<String> {
             l.push(format!("async resourcefb 7 1 {}", evs.join(",")));
         }
         l.push("async resourcefb 1 1 f1,w11,f2,f3".into());
+    }
+    // C15: the resource is read under boundaries that come and go (the resource re-suspends every boundary it
+    // was read under when it is fetched again)
+    for seq in ["f1,u,y,w11,f2", "f1,u,w11,y,f2", "u,y,f1,w11,f2", "f1,u,u,y,w11,y,w12,f3", "u,f1,y,w11,f2,u,w12,y,f3", "f1,u,w11+y,f2", "f1,u,y+w11,f2,w12,f3"] {
+        l.push(format!("async resource 7 {seq}"));
+        if !seq.contains('+') { l.push(format!("async resourcefb 7 1 {seq}")); }
+    }
+    for _ in 0..(if thorough { 20_000 } else { 600 }) {
+        let n = 3 + rng.below(8);
+        let mut started = 1;
+        let mut evs: Vec<String> = vec![];
+        for _ in 0..n {
+            evs.push(match rng.below(6) {
+                0 | 1 => { started += 1; format!("w{}", 10 + started) }
+                2 | 3 => format!("f{}", 1 + rng.below(started)),
+                4 => "u".into(),
+                _ => "y".into(),
+            });
+        }
+        l.push(format!("async resource 7 {}", evs.join(",")));
     }
     // C15: dependency writes back to back (no executor turn in between: the superseded fetch has not been polled)
     for tail in ["f1", "f2", "f3", "f1,f2,f3", "f3,f2,f1", "f2,f3", "f3,f1", "f2,f1,f3"] {
